@@ -1,8 +1,8 @@
 #!/verif/.venv/bin/python
 # Replay of a solver counterexample against the unmodified code (no shims).
-# property=C09 kernel=atomic label=atomic:target#0
+# property=C09 kernel=atomic label=atomic:eom_off#1
 import sys
 sys.path[:0] = ['/repo' + "/pulser-core", '/repo' + "/pulser-simulation", "/verif"]
 from symx.replay import replay
-sys.exit(replay(check='checks.c09', kernel='atomic', shape={'device': 'virt_maxseq', 'prefix': 'p1', 'ops': ['target']},
-                assignment={'pd0/k': 2, 'pd1/k': 982, 'buf#1.start': 0, 'buf#1.end': 0, 'buf#2.start': 0, 'buf#2.end': 1, 'buf#5.start': 0, 'buf#5.end': 0, 'buf#6.start': 0, 'buf#6.end': 1}, label='atomic:target#0'))
+sys.exit(replay(check='checks.c09', kernel='atomic', shape={'device': 'virt_maxseq', 'prefix': 'p1', 'ops': ['eom_on', 'eom_off']},
+                assignment={'pd0/k': 970, 'pd1/k': 2, 'buf#1.start': 0, 'buf#1.end': 3, 'buf#2.start': 0, 'buf#2.end': 0, 'buf#9.start': 0, 'buf#9.end': 20, 'buf#10.start': 0, 'buf#10.end': 21}, label='atomic:eom_off#1'))
